@@ -160,7 +160,12 @@ func c01Case(w *rt.W, st *c01State, y int64, m, d int, slow bool) {
 					c01Fail(w, "out-verb", y, m, d, "Sprintf "+verb, s, wantV)
 				}
 			}
-			w.Eval(49)
+			for _, verb := range wideVerbs {
+				if s := fmt.Sprintf(verb, dt); s != wantE {
+					c01Fail(w, "out-verb", y, m, d, "Sprintf "+verb, s, wantE)
+				}
+			}
+			w.Eval(49 + 208)
 		}
 		if s := fmt.Sprintf("%+v", struct{ D date.Date }{dt}); s != "{D:"+wantE+"}" {
 			c01Fail(w, "out-verb", y, m, d, "Sprintf %+v of a struct holding the date", s, "{D:"+wantE+"}")
@@ -176,6 +181,37 @@ func c01Case(w *rt.W, st *c01State, y int64, m, d int, slow bool) {
 		xa, err := xml.Marshal(xmlAttr{D: dt})
 		if err != nil || string(xa) != `<T d="`+wantE+`"></T>` {
 			c01Fail(w, "out-xml-attr", y, m, d, "xml.Marshal attribute", string(xa), `<T d="`+wantE+`"></T>`)
+		}
+		// the same through addressable values (a pointer, a slice element, a field of a struct passed by pointer,
+		// a map value): encoding/json and encoding/xml then also see methods of the pointer receiver
+		{
+			dp := dt
+			holder := struct {
+				D date.Date
+				P *date.Date
+				L []date.Date
+				M map[string]*date.Date
+			}{dt, &dp, []date.Date{dt}, map[string]*date.Date{"k": &dp}}
+			wantDoc := `{"D":"` + wantE + `","P":"` + wantE + `","L":["` + wantE + `"],"M":{"k":"` + wantE + `"}}`
+			for _, mv := range []struct {
+				path string
+				v    any
+				want string
+			}{{"json.Marshal(&date)", &dp, `"` + wantE + `"`}, {"json.Marshal([]Date)", []date.Date{dt}, `["` + wantE + `"]`}, {"json.Marshal(&struct with Date, *Date, []Date, map[string]*Date)", &holder, wantDoc}, {"json.Marshal(struct by value)", holder, wantDoc}} {
+				jb, err := json.Marshal(mv.v)
+				if err != nil || string(jb) != mv.want {
+					c01Fail(w, "out-json", y, m, d, mv.path, string(jb), mv.want)
+				}
+			}
+			xe2, err := xml.Marshal(&xmlElem{D: dt})
+			if err != nil || string(xe2) != "<T><d>"+wantE+"</d></T>" {
+				c01Fail(w, "out-xml-elem", y, m, d, "xml.Marshal(&element)", string(xe2), "<T><d>"+wantE+"</d></T>")
+			}
+			xa2, err := xml.Marshal(&xmlAttr{D: dt})
+			if err != nil || string(xa2) != `<T d="`+wantE+`"></T>` {
+				c01Fail(w, "out-xml-attr", y, m, d, "xml.Marshal(&attribute holder)", string(xa2), `<T d="`+wantE+`"></T>`)
+			}
+			w.Eval(6)
 		}
 		w.Eval(8)
 	}
